@@ -31,7 +31,8 @@ say "unexpected failing tests: $FAILS"
 # demo with the change
 if [ -f "$DEMO" ]; then
   cp "$DEMO" tests/seeded_demo.rs
-  DEMO_CMD=${DEMO_CMD:-cargo test --offline --features "derive bit-vec bytes generic-array max-encoded-len" --test seeded_demo}
+  DEFAULT_DEMO_CMD='cargo test --offline --features "derive bit-vec bytes generic-array max-encoded-len" --test seeded_demo'
+  DEMO_CMD=${DEMO_CMD:-$DEFAULT_DEMO_CMD}
   if sh -c "$DEMO_CMD" >"$OUT/demo_with$N.log" 2>&1; then say "demo WITH change: passes (unexpected)"; DW=pass; else say "demo WITH change: fails (expected)"; DW=fail; fi
   git apply -R "$PATCH"
   if sh -c "$DEMO_CMD" >"$OUT/demo_without$N.log" 2>&1; then say "demo WITHOUT change: passes (expected)"; DO=pass; else say "demo WITHOUT change: fails (unexpected)"; DO=fail; fi
